@@ -23,6 +23,26 @@ macro_rules! prop_mod {
 prop_mod!(c18, "c18.rs");
 prop_mod!(c16, "c16.rs");
 prop_mod!(c04, "c04.rs");
+prop_mod!(c10, "c10.rs");
+mod c07 {
+  use cdshealpix as hp;
+  use crate::common::*;
+  include!(concat!(env!("CARGO_MANIFEST_DIR"), "/../harness/props/c07.rs"));
+  include!(concat!(env!("CARGO_MANIFEST_DIR"), "/../harness/props/c09.rs"));
+}
+prop_mod!(c14, "c14.rs");
+prop_mod!(c01, "c01.rs");
+prop_mod!(c17, "c17.rs");
+prop_mod!(c06, "c06.rs");
+prop_mod!(c03, "c03.rs");
+prop_mod!(c19, "c19.rs");
+mod c11 {
+  use cdshealpix as hp;
+  use crate::common::*;
+  use crate::c17::c17_in_image;
+  include!(concat!(env!("CARGO_MANIFEST_DIR"), "/../harness/props/c11.rs"));
+}
+mod libmval;
 
 /// Minimal JSON value reader: enough for the flat cases the driver writes.
 #[derive(Debug, Clone)]
@@ -103,6 +123,16 @@ impl Args {
   }
 }
 
+fn ops(a: &Args, p: &str, n: usize) -> common::Ops {
+  let mut o = common::Ops { dm: a.u8(&format!("{}_dm", p)), n, d: [0; 4], h: [0; 4], f: [false; 4] };
+  for k in 0..n.min(4) {
+    o.d[k] = a.u8(&format!("{}_d{}", p, k));
+    o.h[k] = a.u64(&format!("{}_h{}", p, k));
+    o.f[k] = a.bool(&format!("{}_f{}", p, k));
+  }
+  o
+}
+
 fn dispatch(name: &str, a: &Args) -> bool {
   // returns false if the function name is unknown
   match name {
@@ -119,6 +149,41 @@ fn dispatch(name: &str, a: &Args) -> bool {
     "c16_guard" => c16::p_c16_guard(a.f64("r")),
     "c04_pair" => c04::p_c04_pair(a.u8("depth"), a.u64("a"), a.u64("c")),
     "c04_guard" => c04::p_c04_guard(a.u8("depth"), a.u64("a"), a.bool("single"), a.u8("k")),
+    "c10_ring" => c10::p_c10_ring(a.u8("depth"), a.u64("r")),
+    "c10_nested" => c10::p_c10_nested(a.u8("depth"), a.u64("h")),
+    "c10_centres" => c10::p_c10_centres(a.u8("depth"), a.u64("r")),
+    "bmoc_op" => c07::p_bmoc_op(a.u8("op"), a.u8("mode"), &ops(a, "a", a.u64("na") as usize), &ops(a, "b", a.u64("nb") as usize), a.u64("c")),
+    "bmoc_identity" => c07::p_bmoc_identity(a.u8("id"), &ops(a, "a", a.u64("na") as usize)),
+    "bmoc_equals" => c07::p_bmoc_equals(&ops(a, "a", a.u64("na") as usize), &ops(a, "b", a.u64("nb") as usize), a.u64("c")),
+    "bmoc_pack" => c07::p_pack(&ops(a, "a", a.u64("na") as usize), a.u64("c")),
+    "bmoc_lower" => c07::p_lower(&ops(a, "a", a.u64("na") as usize), a.u8("nd"), a.bool("packing"), a.u64("c")),
+    "bmoc_builder_layout" => c07::p_bmoc_builder_layout(&ops(a, "a", a.u64("na") as usize)),
+    "c14_internal" => c14::p_c14_internal(a.u8("depth"), a.u8("delta"), a.u64("hash"), a.u32("k"), a.u32("k2")),
+    "c14_parts" => c14::p_c14_parts(a.u8("depth"), a.u8("delta"), a.u64("hash"), a.u32("k")),
+    "c14_external" => c14::p_c14_external(a.u8("depth"), a.u8("delta"), a.u64("hash"), a.u64("c"), a.u32("k")),
+    "c14_struct" => c14::p_c14_struct(a.u8("depth"), a.u8("delta"), a.u64("hash"), a.u64("c")),
+    "c14_guard" => c14::p_c14_guard(a.u8("depth"), a.u8("delta"), a.u64("hash"), a.u8("which")),
+    "bmoc_views" => c07::p_bmoc_views(a.u8("view"), &ops(a, "a", a.u64("na") as usize), a.u64("c"), a.u32("k")),
+    "fixed_builder" => c07::p_fixed_builder(a.u8("depth"), a.bool("is_full"), a.u64("cap") as usize, a.u64("m") as usize, a.u64("p0"), a.u64("p1"), a.u64("p2"), a.u64("p3"), a.u64("c")),
+    "c01_all_depths" => c01::p_c01_all_depths(a.f64("lon"), a.f64("lat")),
+    "c01_point" => c01::p_c01_point(a.u8("depth"), a.f64("lon"), a.f64("lat")),
+    "c01_pullback" => c01::p_c01_pullback(a.u8("d0h"), a.f64("l"), a.f64("h")),
+    "c01_guard" => c01::p_c01_guard(a.u8("depth"), a.f64("lon"), a.f64("lat")),
+    "libm_validate" => libmval::validate(a.u64("seed")),
+    "oracle_selftest" => libmval::oracle_selftest(a.u64("seed")),
+    "c17_native" => c17::p_c17_native(a.f64("lon"), a.f64("lat")),
+    "c17_native_plane" => c17::p_c17_native_plane(a.f64("x"), a.f64("y")),
+    "c17_base_cell" => c17::p_c17_base_cell(a.f64("x"), a.f64("y")),
+    "c17_guard" => c17::p_c17_guard(a.u8("which"), a.f64("a"), a.f64("b")),
+    "c06_allsky" => c06::p_c06_allsky(a.u8("depth"), a.u8("delta"), a.f64("lon"), a.f64("lat"), a.f64("r")),
+    "c11_pullback" => c11::p_c11_pullback(a.u32("nside"), a.f64("x"), a.f64("y")),
+    "c11_center" => c11::p_c11_center(a.u32("nside"), a.u64("h")),
+    "c11_order" => c11::p_c11_order(a.u32("nside"), a.u64("r")),
+    "c11_guard" => c11::p_c11_guard(a.u32("nside"), a.u8("which"), a.u64("h"), a.f64("lon"), a.f64("lat")),
+    "c03_cell" => c03::p_c03_cell(a.u8("depth"), a.u64("h"), a.u32("dxk"), a.u32("dyk")),
+    "c03_pullback" => c03::p_c03_pullback(a.u8("depth"), a.f64("x"), a.f64("y")),
+    "c03_guard" => c03::p_c03_guard(a.u8("depth"), a.u8("which"), a.u64("h")),
+    "c19_pullback" => c19::p_c19_pullback(a.u8("depth"), a.f64("x"), a.f64("y")),
     _ => return false,
   }
   true
